@@ -14,7 +14,7 @@ BOUNDS = {"quick": {"ranks": 2, "events K": "6 (+ prefixes)"}, "thorough": {"ran
 SRCS = ["h.c", "clsstub.c", "repo:parsec/class/parsec_list.c"]
 def queries(ctx):
     info = {"symbolic": ["initial tasks per rank", "event kind, ranks a,b, send/keep-running choice, whole/split reception per step"],
-            "enumerated": ["number of ranks NR", "number of events KK", "deterministic prefix PRE (0 none, 1 rank 0 sent a message and completed, 2 ... and it was received and processed)"],
+            "enumerated": ["number of ranks NR", "number of events KK", "deterministic prefix PRE (0 none, 1 rank 0 sent a message and completed, 2 ... and it was received and processed, 3 the task of rank 0 completes before its start-up action is released; the release is a symbolic event)"],
             "functions": ["parsec_termdet_fourcounter_msg_dispatch", "_msg_up", "_msg_down", "_send_up_messages", "_check_state_workload_changed", "_check_state_message_received",
                           "_taskpool_ready", "_taskpool_addto_nb_tasks", "_taskpool_addto_runtime_actions", "_outgoing_message_start", "_incoming_message_start", "_incoming_message_end", "_monitor_taskpool"],
             "stubs": ["parsec_ce.send_am", "parsec_taskpool_lookup", "parsec_atomic_rwlock_*", "clock_gettime", "parsec_class_initialize (clsstub.c)", "termination callback (safety oracle)"]}
@@ -24,9 +24,14 @@ def queries(ctx):
                     unwind=max(kk, 3) + 1, object_bits=10, units=[U, "parsec/class/list.h"], info=dict(info, bounds={"NR": nr, "KK": kk, "PRE": pre}),
                     tiers=tiers, timeout=timeout, slow=slow))
     both = ("quick", "thorough")
+    qs.append(Q("delayed", ["hd.c", "clsstub.c", "repo:parsec/class/parsec_list.c"], unwind=10, object_bits=10, units=[U, "parsec/class/list.h"],
+                info={"symbolic": ["tree size NN in 2..3", "number of early UP messages and their counters", "registered / unknown taskpool at each arrival", "position of a message for another taskpool"],
+                      "functions": ["parsec_termdet_fourcounter_msg_dispatch (delay branch)", "_taskpool_ready (replay loop)", "_msg_dispatch_taskpool", "_msg_up", "_send_up_messages"],
+                      "stubs": info["stubs"], "bounds": {"early messages": "<=2 + 1 foreign"}}, tiers=both, timeout=900, slow=True))
     add(2, 6, 0, 1, 0, 1, both)
     add(2, 5, 2, 1, 1, 1, both)
     add(2, 5, 1, 0, 0, 1, both)
+    add(2, 5, 3, 1, 0, 0, both)
     if ctx.thorough:
         add(2, 9, 0, 1, 1, 1, ("thorough",), 3000, True)
         add(2, 8, 1, 1, 1, 1, ("thorough",), 3000, True)
@@ -39,9 +44,17 @@ def mutants(ctx):
              "msg_down.result = (tpm->acc_sent == tpm->acc_received);", queries=["n2_k6_p0"]),
       Mutant("received_counted_at_start", U, "        PARSEC_DEBUG_VERBOSE(10, parsec_debug_output, \"TERMDET-4C:\\tProcess changed state for BUSY_WAITING_FOR_PARENT (message start)\");\n    }\n",
              "        PARSEC_DEBUG_VERBOSE(10, parsec_debug_output, \"TERMDET-4C:\\tProcess changed state for BUSY_WAITING_FOR_PARENT (message start)\");\n    }\n    tpm->messages_received++;\n", queries=["n2_k6_p0", "n2_k5_p1"]),
-      Mutant("idle_ignores_pending_actions", U, "    if(tp->nb_tasks == 0 && tp->nb_pending_actions == 0) {\n        /* We are now IDLE */", "    if(tp->nb_tasks == 0) {\n        /* We are now IDLE */", queries=["n2_k6_p0"]),
+      Mutant("idle_ignores_pending_actions", U, "    if(tp->nb_tasks == 0 && tp->nb_pending_actions == 0) {\n        /* We are now IDLE */", "    if(tp->nb_tasks == 0) {\n        /* We are now IDLE */", queries=["n2_k5_p3"]),
       Mutant("root_forgets_last_received", U, "        tpm->last_acc_received_at_root = tpm->acc_received;\n", "\n", queries=["n2_k6_p0"]),
       Mutant("sent_not_counted", U, "    tpm->messages_sent++;\n", "\n", queries=["n2_k5_p2", "n2_k6_p0"]),
       Mutant("child_keeps_stale_accumulators", U, "    } else {\n        tpm->acc_sent = 0;\n        tpm->acc_received = 0;\n        if( tpm->state == PARSEC_TERMDET_FOURCOUNTER_IDLE_WAITING_FOR_PARENT ) {", "    } else {\n        if( tpm->state == PARSEC_TERMDET_FOURCOUNTER_IDLE_WAITING_FOR_PARENT ) {", queries=["n2_k5_p2", "n2_k6_p0"]),
+      Mutant("replay_ignores_taskpool_id", U, "        if(down_msg->tp_id == tp->taskpool_id) {", "        if(1) {", queries=["delayed"]),
+      Mutant("recheck_does_not_delay_not_ready", U, "->state ==\n             PARSEC_TERMDET_FOURCOUNTER_NOT_READY)) {", "->state ==\n             PARSEC_TERMDET_FOURCOUNTER_TERMINATED)) {", queries=["delayed"]),
     ]
-CLAIMED = False
+CLAIMED = True
+MANIFEST = {
+ "engine": "cbmc-src",
+ "text": "Bounded model checking of the real termdet_fourcounter_module.c with 2 (thorough: 3) process instances in one address space: the solver chooses every sequence of K events (task completes / sends, application message reception started / finished, control message delivered, late start-up release) and every initial load; the termination callback asserts that no rank has work and no application message is in flight (safety), no quiet state short of termination is reachable and the root never rejects a third consecutive wave after quiescence (bounded progress); at most one control message per channel. A separate query checks the delayed-message path (messages for a not-yet-ready or unknown taskpool are parked and replayed exactly once by taskpool_ready, per taskpool id).",
+ "note": "process steps atomic (rwlock stubbed), reliable order-preserving channels, <=3 ranks, K<=6 events after enumerated prefixes (thorough 8..10); unbounded liveness, real MPI and intra-rank threading outside the claim.",
+ "technique": "CBMC bounded symbolic execution of the real C unit (N in-process ranks, symbolic event sequence) + SAT (cadical)",
+}
